@@ -35,9 +35,14 @@ package watchers
 //@ func WatchDiskSpace
 //@   property C18
 //@   attr assume-pre CheckDiskUsage
-//@   attr hooked @C18 Pause,Resume
 //@   local nPause int = 0
 //@   local nResume int = 0
+//@   local fresh int = 0
+//@   attr hooked @C18 Pause,Resume,CheckDiskUsage
+//@   after selrecv(C)#1: fresh = 0
+//@   after CheckDiskUsage(path)#1: fresh = 1
+//@   assert Pause(?)#1: [current-tick] fresh == 1 // C18: pauses while running exactly when free space is below the threshold (the decision of a tick is taken on a measurement made after that tick, not on the previous one)
+//@   assert pause.Resume()#1: [current-tick] fresh == 1
 //@   after Pause(?)#1: nPause = nPause + 1
 //@   after pause.Resume()#1: nResume = nResume + 1
 //@   assert Pause(?)#1: [only-when-low] err != nil && !paused // C18: pauses while running exactly when free space ... is below the threshold
